@@ -73,7 +73,7 @@ CHECKS.update({
    design_ref="DESIGN.md §6.2", note=PROOF_NOTE,
    technique="Lean 4 theorems about a hand-written port + exhaustive small-scope correspondence vs the real printer"),
  "C03": dict(category="proof",
-   text="PARTIAL PROOF. Proved for all typed CSTs of relation declarations, which carry every layout choice of the grammar (text of each WHITESPACE/NEWLINE token, optional tokens, line breaks in restriction lists, redundant parentheses of any depth, keyword tokens as identifiers): two declarations with the same name, denotation and declared restrictions leave the listener in the same state (listener_layout_invariant), and the relation recorded is the denotation of the CST with operand order and nesting as written and the restrictions in order (declared_rewrite_recorded). Not proved: that the real lexer/parser accept every grammatical text and build that tree, and the comment pre-pass lemma; both are executed: an independent grammar-mirroring renderer writes generated models and module files in random layouts, the real parser must return exactly the model written, and the Lean pre-pass + listener ports are compared with the real pipeline on the real parse trees.",
+   text="PARTIAL PROOF. Proved for all typed CSTs of relation declarations, which carry every layout choice of the grammar (text of each WHITESPACE/NEWLINE token, optional tokens, line breaks in restriction lists, redundant parentheses of any depth, keyword tokens as identifiers): two declarations with the same name, denotation and declared restrictions leave the listener in the same state (listener_layout_invariant), and the relation recorded is the denotation of the CST with operand order and nesting as written and the restrictions in order (declared_rewrite_recorded). This is carried over to REAL parse trees with their positions: the walk commutes with erasing positions up to the positions stored in the error log (walk_strip over all callbacks, dispatch and walker), so every real relation-declaration subtree that passes the decidable embedding test (position-erased, it is literally the embedding of a well-formed CST - an unverified reader proposes the CST, a verified structural equality test confirms it) provably yields the denotation of that CST (real_declaration_denotes, real_declaration_relation); the driver evaluates the test on every relation declaration of every error-free real parse tree and the evidence reports the counts (all pass), and every such tree is also checked to be a derivation by the grammar translated from OpenFGAParser.g4 on this run. Not proved: that the real lexer/parser accept every grammatical text and build the right tree; executed: an independent grammar-mirroring renderer writes generated models and module files in random layouts, the real parser must return exactly the model written, and the Lean pre-pass + listener ports are compared with the real pipeline on the real parse trees.",
    design_ref="DESIGN.md §6.3", note=PROOF_NOTE,
    technique="Lean 4 theorems (layout-carrying CST, listener port) + independent renderer oracle + differential correspondence"),
  "C09": dict(category="proof",
@@ -84,11 +84,11 @@ CHECKS.update({
 
 CHECKS.update({
  "C14": dict(category="proof",
-   text="PARTIAL PROOF. Proved about the printer port for all models: sortByModule is a total, transitive comparator whose ties share the name (unattributed first, then module, file, name) - sortByModule_total_preorder; for a modular model with distinct type names the printed order of the type definitions and hence the whole DSL text, for both values of the source-information option, is invariant under any permutation of the input type definitions - types_order_invariant, output_invariant_under_type_order (sorted-permutation uniqueness for the structural insertion sort); the printed order is sorted by that comparator - types_printed_sorted, relations_printed_sorted. Independence of Go map iteration / JSON key order holds by construction in the model (maps are key-sorted lists) and is what the correspondence and the shuffled-JSON / repeated-call oracles check of the code. Comment inertness (strip(print true m) = print false m, both parse alike) is oracle-only; its excluded point is the open finding KF-C14-newline-in-source-name.",
+   text="PARTIAL PROOF. Proved about the printer port for all models: sortByModule is a total, transitive comparator whose ties share the name (unattributed first, then module, file, name) - sortByModule_total_preorder; for a modular model with distinct type names the printed order of the type definitions and hence the whole DSL text, for both values of the source-information option, is invariant under any permutation of the input type definitions - types_order_invariant, output_invariant_under_type_order (sorted-permutation uniqueness for the structural insertion sort); the printed order is sorted by that comparator - types_printed_sorted, relations_printed_sorted. Independence of Go map iteration / JSON key order holds by construction in the model (maps are key-sorted lists) and is what the correspondence and the shuffled-JSON / repeated-call oracles check of the code. Comment inertness (strip(print true m) = print false m, both parse alike) is oracle-only; the one class where it failed (a line break in a module or file name) was repaired in /repo (6d55bc0) and stays in the generated inputs.",
    design_ref="DESIGN.md §6.14", note=PROOF_NOTE,
    technique="Lean 4 theorems (sorting, total preorder) about a hand-written port + differential correspondence + shuffle/repeat oracles"),
  "C16": dict(category="proof",
-   text="PARTIAL PROOF. Proved for every input: the comment pre-pass never adds lines and line i of the cleaned text is a prefix of line i of the input, so every (line, column) inside the text handed to ANTLR lies inside the input with the same coordinates, also when comments and blank lines precede it (clean_prefix, position_inside_input); the duplicate-relation error is logged at the start of the relationName context (listener_error_at_name). Not proved: that ANTLR's reported positions lie inside the text it was given and that token coordinates are where the text stands (runtime contract; bounds oracle on every rejected input, exact-position oracle against the renderer's marks for listener errors). The module-merge half is false of the code in three narrow classes recorded as open findings (line looked up by text search: prefix collision, substring column, non-canonical spacing); outside them file/line/column are compared with the renderer's marks, and the Lean port of line-numbers.go reproduces the code's answers everywhere (correspondence).",
+   text="PARTIAL PROOF. Proved for every input: the comment pre-pass never adds lines and line i of the cleaned text is a prefix of line i of the input, so every (line, column) inside the text handed to ANTLR lies inside the input with the same coordinates, also when comments and blank lines precede it (clean_prefix, position_inside_input); the duplicate-relation error is logged at the start of the relationName context (listener_error_at_name); the text search the module merger uses to locate a conflict never reports a position outside the file - found line below the number of lines and starting with the searched text, columns inside the line spanning exactly the symbol, origin when nothing is found (merge_position_inside_file, merge_position_origin_when_not_found). Not proved: that ANTLR's reported positions lie inside the text it was given and that token coordinates are where the text stands (runtime contract; bounds oracle on every rejected input, exact-position oracle against the renderer's marks for listener errors). The module-merge half is false of the code in three narrow classes recorded as open findings (line looked up by text search: prefix collision, substring column, non-canonical spacing); outside them file/line/column are compared with the renderer's marks, and the Lean port of line-numbers.go reproduces the code's answers everywhere (correspondence).",
    design_ref="DESIGN.md §6.16", note=PROOF_NOTE,
    technique="Lean 4 theorems about the pre-pass and listener ports + position oracles against an independent renderer + differential correspondence"),
  "C17": dict(category="proof",
@@ -118,10 +118,10 @@ CHECKS.update({
    text="The Go weight assignment is NOT ported and no theorem is about it: every accepted real build (public Build, and through the hook every enumerated/sampled DFS start order) is compared node by node with the executable Lean specification of weights (Spec/Weights.lean), and the edge rule, absence of R# placeholders and of empty maps are evaluated on the real graph. Lean theorems (Props/C04.lean, kernel-checked on every run) show that the specification has the shape the property states: on every graph where the iteration reached a fixed point (evaluated per input by the driver) the weight map of each node is its strategy over its edges - edge = target (+1 saturating for hops, {T:1} into terminals), union/relation = pointwise max, intersection = common keys with max, exclusion = base keys with max - and an accepted graph has no empty map. Inputs matching the open finding KF-C04-operand-grouping are recognised by an ungrouped variant of the specification that the code must then equal exactly.",
    design_ref="DESIGN.md §6.4", note=TV_NOTE, technique=SPEC_TECH),
  "C05": dict(category="translation_validation",
-   text="The real verdict under every enumerated/sampled depth-first start order is compared with the Lean well-foundedness specification; the error class must be one of the three sentinels. The Go algorithm is not ported. Lean theorems (Props/C05.lean) about the specification: accepted iff no node on a rewrite-only cycle, no intersection/exclusion on any cycle and every node reaches a terminal type (accepted_means); a graph containing a rewrite-only cycle is rejected whatever else it contains (rewrite_only_cycle_never_passes); the cycle test is sound (cycle_flag_sound).",
+   text="The real verdict under every enumerated/sampled depth-first start order is compared with the Lean well-foundedness specification; the error class must be one of the three sentinels. The Go algorithm is not ported. Lean theorems (Props/C05.lean) about the specification: accepted iff no node on a rewrite-only cycle, no intersection/exclusion on any cycle and every node reaches a terminal type (accepted_means); a graph containing a rewrite-only cycle is rejected whatever else it contains (rewrite_only_cycle_never_passes); the cycle test is sound (cycle_flag_sound) and, on graphs where every referenced node exists (evaluated per input), complete (cycle_flag_exact: the fuel of the search suffices).",
    design_ref="DESIGN.md §6.5", note=TV_NOTE, technique=SPEC_TECH),
  "C11": dict(category="translation_validation",
-   text="Real wildcard lists of every node and edge, under every forced traversal order, must equal the specification's reachable-public-types sets exactly, have no duplicates, and every edge must equal its target ({T} into T:*). The Go propagation is not ported. Lean theorems (Props/C11.lean) about the specification: every listed type is a T:* restriction reachable by following edges (wildcard_set_sound), no duplicates (wildcard_set_no_duplicates), nothing reachable => empty (no_wildcard_reachable_empty); completeness of the fuelled search is not proved.",
+   text="Real wildcard lists of every node and edge, under every forced traversal order, must equal the specification's reachable-public-types sets exactly, have no duplicates, and every edge must equal its target ({T} into T:*). The Go propagation is not ported. Lean theorems (Props/C11.lean) about the specification: every listed type is a T:* restriction reachable by following edges (wildcard_set_sound), no duplicates (wildcard_set_no_duplicates), nothing reachable => empty (no_wildcard_reachable_empty), and on graphs where every referenced node exists (evaluated per input) every reachable T:* is listed, so the set is exactly the reachable public types (wildcard_set_exact).",
    design_ref="DESIGN.md §6.11", note=TV_NOTE, technique=SPEC_TECH),
 })
 
